@@ -17,7 +17,7 @@ from harness.gen import a03 as G
 
 DRIVERS = ["drv_c04"]
 RULE = ("one case = one generated stored definition (1-3 top-level classes, nesting depth <= 3) rendered to text with "
-        "layout noise; streams: main / multisec (finding C04-F2) / bothdims (C04-F3) / dup / redecl / quirk; "
+        "layout noise; streams: main / dup / redecl / quirk; "
         "non-trivial = at least one component clause with >= 2 declarators, or >= 2 element sections, or a nested "
         "class, in some class; distinct = distinct source description")
 TRUSTED = ["ANTLR: the parse tree of the rendered text has the shape of the description it was rendered from, and the "
@@ -271,7 +271,7 @@ def decl_cmod(d):
 
 def ideal_dims(e, d):
     if e["cdims"] is not None and d["dims"] is not None:
-        return [list(d["dims"]), list(e["cdims"])]      # `Real[3] b[2]` is a 2 x 3 array (finding C04-F3)
+        return [list(d["dims"]), list(e["cdims"])]      # `Real[3] b[2]` is a 2 x 3 array
     if e["cdims"] is not None:
         return [list(e["cdims"])]
     if d["dims"] is not None:
@@ -345,45 +345,48 @@ CLASS_FIELDS = ["kind", "partial", "encapsulated", "comment", "equations", "init
 
 
 def compare_class(want, got, path, quirk=False):
-    """First difference between the description and the tree, as (what, expected, observed)."""
+    """All differences between the description and the tree, as (what, expected, observed); a
+    difference in the list of components / nested classes ends the comparison of that class."""
     here = path + [want["name"]]
     where = ".".join(here)
     if got["name"] != want["name"]:
-        return ("class name in %s" % ".".join(path or ["<file>"]), want["name"], got["name"])
+        yield ("class name in %s" % ".".join(path or ["<file>"]), want["name"], got["name"])
+        return
     wn, gn = [s["name"] for s in want["symbols"]], [s["name"] for s in got["symbols"]]
     if wn != gn or [s["key"] for s in got["symbols"]] != gn:
-        return ("components of class %s (each declared component exactly once, in declaration order)" % where, wn, gn)
+        yield ("components of class %s (each declared component exactly once, in declaration order)" % where, wn, gn)
+        return
     for w, g in zip(want["symbols"], got["symbols"]):
         for f in SYM_FIELDS:
             if w[f] != g[f]:
                 if f == "vis":
-                    return ("visibility of component %s.%s is %s, its section says %s" % (where, w["name"], g[f], w[f]), w[f], g[f])
-                return ("%s of component %s.%s" % ({"dims": "array dimensions", "cmod": "modifications"}.get(f, f),
-                                                   where, w["name"]), w[f], g[f])
+                    yield ("visibility of component %s.%s is %s, its section says %s" % (where, w["name"], g[f], w[f]), w[f], g[f])
+                else:
+                    yield ("%s of component %s.%s" % ({"dims": "array dimensions", "cmod": "modifications"}.get(f, f),
+                                                      where, w["name"]), w[f], g[f])
     if len(want["extends"]) != len(got["extends"]):
-        return ("extends clauses of class %s" % where, want["extends"], got["extends"])
-    for i, (w, g) in enumerate(zip(want["extends"], got["extends"])):
-        for f in ("path", "args"):
-            if w[f] != g[f]:
-                return ("%s of extends clause %d of class %s" % (f, i, where), w[f], g[f])
-        if w["vis"] != g["vis"]:
-            return ("visibility of extends clause %d (%s) of class %s is %s, its section says %s" % (
-                i, ".".join(w["path"]), where, g["vis"], w["vis"]), w["vis"], g["vis"])
+        yield ("extends clauses of class %s" % where, want["extends"], got["extends"])
+    else:
+        for i, (w, g) in enumerate(zip(want["extends"], got["extends"])):
+            for f in ("path", "args"):
+                if w[f] != g[f]:
+                    yield ("%s of extends clause %d of class %s" % (f, i, where), w[f], g[f])
+            if w["vis"] != g["vis"]:
+                yield ("visibility of extends clause %d (%s) of class %s is %s, its section says %s" % (
+                    i, ".".join(w["path"]), where, g["vis"], w["vis"]), w["vis"], g["vis"])
     for f in CLASS_FIELDS:
         if f == "extends" or (f == "imports" and quirk):
             continue
         if want[f] != got[f]:
-            return ("%s of class %s" % (f, where), want[f], got[f])
+            yield ("%s of class %s" % (f, where), want[f], got[f])
     if quirk:
-        return None
+        return
     wn, gn = [k["name"] for k in want["classes"]], [k["name"] for k in got["classes"]]
     if wn != gn or [k["key"] for k in got["classes"]] != gn:
-        return ("nested classes of class %s" % where, wn, gn)
+        yield ("nested classes of class %s" % where, wn, gn)
+        return
     for w, g in zip(want["classes"], got["classes"]):
-        r = compare_class(w, g, here)
-        if r:
-            return r
-    return None
+        yield from compare_class(w, g, here)
 
 
 def doc_order_symbols(cls_canon, src_cls, out):
@@ -575,32 +578,30 @@ def check_case(ctx, case, drv):
             ctx.violation("parsing a class text of the supported subset raised %s" % impl["exc"], case,
                           expected="a tree", observed=impl, kind="input")
     else:
-        msg = None
+        msgs = []
         want = [ideal_class(t["cls"]) for t in f["classes"]]
         got = impl["classes"]
         if [w["name"] for w in want] != [g["name"] for g in got]:
-            msg = ("top-level classes of the file", [w["name"] for w in want], [g["name"] for g in got])
-        for t, w, g in zip(f["classes"], want, got):
-            if msg:
-                break
-            if g["final"] != t["final"]:
-                msg = ("final flag of class %s" % w["name"], t["final"], g["final"])
-            else:
-                msg = compare_class(w, g, [], quirk=stream == "quirk")
-        if msg is None and stream != "quirk":
-            docs = []
-            for t, g in zip(f["classes"], got):
-                doc_order_symbols(g, t["cls"], docs)
-            for (c1, s1), (c2, s2) in zip(docs, docs[1:]):
-                if not s1["order"] < s2["order"]:
-                    msg = ("declaration order: %s.%s (order %d) is declared before %s.%s (order %d)" % (
-                        c1, s1["name"], s1["order"], c2, s2["name"], s2["order"]), "increasing", [s1["order"], s2["order"]])
-                    break
-        if msg is None:
-            msg = aliasing_probe(tree)
-            # the probe changed the tree: impl["classes"] was canonicalised before
-        if msg:
-            ctx.violation(msg[0], case, expected=msg[1], observed=msg[2], kind="input")
+            msgs.append(("top-level classes of the file", [w["name"] for w in want], [g["name"] for g in got]))
+        else:
+            for t, w, g in zip(f["classes"], want, got):
+                if g["final"] != t["final"]:
+                    msgs.append(("final flag of class %s" % w["name"], t["final"], g["final"]))
+                msgs += list(compare_class(w, g, [], quirk=stream == "quirk"))
+            if stream != "quirk":
+                docs = []
+                for t, g in zip(f["classes"], got):
+                    doc_order_symbols(g, t["cls"], docs)
+                for (c1, s1), (c2, s2) in zip(docs, docs[1:]):
+                    if not s1["order"] < s2["order"]:
+                        msgs.append(("declaration order: %s.%s (order %d) is declared before %s.%s (order %d)" % (
+                            c1, s1["name"], s1["order"], c2, s2["name"], s2["order"]), "increasing", [s1["order"], s2["order"]]))
+                        break
+        m = aliasing_probe(tree)      # the probe changes the tree: impl["classes"] was canonicalised before
+        if m:
+            msgs.append(m)
+        for m in msgs[:12]:
+            ctx.violation(m[0], case, expected=m[1], observed=m[2], kind="input")
 
     # ---- correspondence with the Lean model ------------------------------------------------------
     if drv is None:
@@ -665,7 +666,7 @@ def import_clash(f):
     return False
 
 
-STREAMS = [("main", 0.58), ("dup", 0.10), ("multisec", 0.10), ("bothdims", 0.07), ("redecl", 0.08), ("quirk", 0.07)]
+STREAMS = [("main", 0.74), ("dup", 0.10), ("redecl", 0.09), ("quirk", 0.07)]
 
 
 def make_case(rng):
